@@ -42,6 +42,10 @@ const (
 
 	// Session key length for symmetric encryption after SSL handshake
 	AuthSSLSessionKeyLen = 256
+
+	// AuthSSLBufSize bounds one tunnelled TLS message and the SciToken sent over the
+	// TLS channel (HTCondor's AUTH_SSL_BUF_SIZE)
+	AuthSSLBufSize = 1048576
 )
 
 // SSLAuthenticator handles SSL certificate-based authentication following HTCondor's protocol
@@ -655,6 +659,11 @@ func (c *CEDARTLSConnection) receiveMessage(ctx context.Context) ([]byte, error)
 	length, err := msg.GetInt(ctx)
 	if err != nil {
 		return nil, fmt.Errorf("failed to get TLS data length: %w", err)
+	}
+
+	// The length is peer-supplied: bound it before sizing a buffer with it
+	if length < 0 || length > AuthSSLBufSize {
+		return nil, fmt.Errorf("invalid TLS data length %d", length)
 	}
 
 	// HTCondor protocol: receive data bytes third (if length > 0)
